@@ -1908,6 +1908,12 @@ func (x *Exec) convert(st *State, v Value, to types.Type) Value {
 		sv := v.(SliceV)
 		r := Value(Scalar{mk(SStr, "bytes2str", sv.Arr, sv.Off, sv.Len), to})
 		if fsl := from.Underlying().(*types.Slice); fsl.Elem().Underlying().(*types.Basic).Kind() == types.Byte {
+			st.assume(eq(mk(SInt, "strlen", r.(Scalar).T), sv.Len))
+		}
+		if true {
+			return r
+		}
+		if fsl := from.Underlying().(*types.Slice); fsl.Elem().Underlying().(*types.Basic).Kind() == types.Byte {
 			st.assume(eq(mk(SInt, "strlen", r.(Scalar).T), v.(SliceV).Len))
 		}
 		return r
